@@ -464,121 +464,176 @@ func propC19(c *Ctx) {
 			fatalf("anchor: field shovel/web.Handler.password not found")
 		}
 	}
-	var cmpOK []Edge
-	cmpSeen := false
+	// the arms of Login: Login itself (with its single-use helpers), and – when the request method is
+	// dispatched through a table of handlers (`serve, ok := loginMethods[r.Method]; serve(h, …)`) – every
+	// function of that table, which runs exactly for the method it is stored under
+	type loginArm struct {
+		reg  *Region
+		root *ssa.Function
+		key  string // "" = Login itself
+	}
+	mainReg := lreg
+	arms := []loginArm{{lreg, login, ""}}
 	for _, ci := range lreg.Calls() {
 		call, isCall := ci.(*ssa.Call)
-		if !isCall || calleeName(call) != "crypto/subtle.ConstantTimeCompare" {
+		if !isCall || call.Call.IsInvoke() || staticCallee(call) != nil {
 			continue
 		}
-		a0, a1 := call.Call.Args[0], call.Call.Args[1]
-		fromForm := func(v ssa.Value) bool {
-			conv, ok := v.(*ssa.Convert)
-			if !ok {
-				// the helper's parameter: what Login hands over
-				conv, ok = lreg.Resolve(v).(*ssa.Convert)
-			}
-			if !ok {
-				return false
-			}
-			fc, ok := lreg.Resolve(conv.X).(*ssa.Call)
-			if !ok || calleeName(fc) != "(*net/http.Request).FormValue" {
-				return false
-			}
-			k, _ := constString(fc.Call.Args[1])
-			_, isParam := fc.Call.Args[0].(*ssa.Parameter)
-			return k == "password" && isParam
+		v := stripConv(call.Call.Value)
+		if e, isE := v.(*ssa.Extract); isE {
+			v = e.Tuple
 		}
-		if !((fromForm(a0) && isLoadOfField(a1, fPw)) || (fromForm(a1) && isLoadOfField(a0, fPw))) {
+		lk, isLk := v.(*ssa.Lookup)
+		if !isLk {
 			continue
 		}
-		cmpSeen = true
-		for _, ref := range *call.Referrers() {
-			b, ok := ref.(*ssa.BinOp)
-			if !ok {
+		if kf, _ := loadedField(stripConv(lk.Index)); kf == nil || kf.Name() != "Method" {
+			continue
+		}
+		u, isU := lk.X.(*ssa.UnOp)
+		if !isU {
+			continue
+		}
+		g, isG := u.X.(*ssa.Global)
+		if !isG {
+			continue
+		}
+		for key, fns := range globalFuncMap(w, g) {
+			for _, f := range fns {
+				arms = append(arms, loginArm{NewRegion(f), f, key})
+			}
+		}
+	}
+	sort.SliceStable(arms, func(i, j int) bool { return arms[i].key < arms[j].key })
+	nSet := 0
+	for _, arm := range arms {
+		lreg, login := arm.reg, arm.root
+		var cmpOK []Edge
+		cmpSeen := false
+		for _, ci := range lreg.Calls() {
+			call, isCall := ci.(*ssa.Call)
+			if !isCall || calleeName(call) != "crypto/subtle.ConstantTimeCompare" {
 				continue
 			}
-			n, okc := constInt(b.Y)
-			if !okc || n != 1 || (b.Op != token.EQL && b.Op != token.NEQ) {
-				continue
-			}
-			t, f := boolEdges(b)
-			if b.Op == token.NEQ {
-				t = f
-			}
-			if h := call.Parent(); h == login || h.Signature.Results().Len() != 1 {
-				// in Login itself, or in a part of Login that was split off (loginSubmit): the edges guard in place
-				cmpOK = append(cmpOK, t...)
-				continue
-			}
-			// in a boolean helper: it may report true only when the comparison said 1
-			h := call.Parent()
-			cs, _ := lreg.site[h].(*ssa.Call)
-			if cs == nil || cs.Parent() != login {
-				continue
-			}
-			implies := true
-			for _, r := range returnsOf(h) {
-				vals := returnValues(r)
-				if len(vals) != 1 {
-					implies = false
-					break
+			a0, a1 := call.Call.Args[0], call.Call.Args[1]
+			fromForm := func(v ssa.Value) bool {
+				conv, ok := v.(*ssa.Convert)
+				if !ok {
+					// the helper's parameter: what Login hands over
+					conv, ok = lreg.Resolve(v).(*ssa.Convert)
 				}
-				for _, lf := range phiLeaves(vals[0]) {
-					switch v := lf.Val.(type) {
-					case *ssa.Const:
-						if v.Value != nil && v.Value.String() == "true" && !guardedByEdges(h, r, t) {
-							implies = false
-						}
-					default:
-						if lf.Val == ssa.Value(b) && b.Op == token.EQL {
-							continue
-						}
-						if !guardedByEdges(h, r, t) {
-							implies = false
+				if !ok {
+					return false
+				}
+				fc, ok := lreg.Resolve(conv.X).(*ssa.Call)
+				if !ok || calleeName(fc) != "(*net/http.Request).FormValue" {
+					return false
+				}
+				k, _ := constString(fc.Call.Args[1])
+				_, isParam := fc.Call.Args[0].(*ssa.Parameter)
+				return k == "password" && isParam
+			}
+			if !((fromForm(a0) && isLoadOfField(a1, fPw)) || (fromForm(a1) && isLoadOfField(a0, fPw))) {
+				continue
+			}
+			cmpSeen = true
+			for _, ref := range *call.Referrers() {
+				b, ok := ref.(*ssa.BinOp)
+				if !ok {
+					continue
+				}
+				n, okc := constInt(b.Y)
+				if !okc || n != 1 || (b.Op != token.EQL && b.Op != token.NEQ) {
+					continue
+				}
+				t, f := boolEdges(b)
+				if b.Op == token.NEQ {
+					t = f
+				}
+				if h := call.Parent(); h == login || h.Signature.Results().Len() != 1 {
+					// in Login itself, or in a part of Login that was split off (loginSubmit): the edges guard in place
+					cmpOK = append(cmpOK, t...)
+					continue
+				}
+				// in a boolean helper: it may report true only when the comparison said 1
+				h := call.Parent()
+				cs, _ := lreg.site[h].(*ssa.Call)
+				if cs == nil || cs.Parent() != login {
+					continue
+				}
+				implies := true
+				for _, r := range returnsOf(h) {
+					vals := returnValues(r)
+					if len(vals) != 1 {
+						implies = false
+						break
+					}
+					for _, lf := range phiLeaves(vals[0]) {
+						switch v := lf.Val.(type) {
+						case *ssa.Const:
+							if v.Value != nil && v.Value.String() == "true" && !guardedByEdges(h, r, t) {
+								implies = false
+							}
+						default:
+							if lf.Val == ssa.Value(b) && b.Op == token.EQL {
+								continue
+							}
+							if !guardedByEdges(h, r, t) {
+								implies = false
+							}
 						}
 					}
 				}
+				if implies {
+					ht, _ := boolEdges(cs)
+					cmpOK = append(cmpOK, ht...)
+				}
 			}
-			if implies {
-				ht, _ := boolEdges(cs)
-				cmpOK = append(cmpOK, ht...)
+		}
+		postT, _ := cmpEdges(login, func(b *ssa.BinOp) bool {
+			if b.Op != token.EQL {
+				return false
 			}
+			s, ok := constString(b.Y)
+			f, _ := loadedField(b.X)
+			return ok && s == "POST" && f != nil && f.Name() == "Method"
+		})
+		_, postT2 := cmpEdges(login, func(b *ssa.BinOp) bool { // `if r.Method != "POST" { 405; return }`
+			if b.Op != token.NEQ {
+				return false
+			}
+			s, ok := constString(b.Y)
+			f, _ := loadedField(b.X)
+			return ok && s == "POST" && f != nil && f.Name() == "Method"
+		})
+		postT = append(postT, postT2...)
+		for _, ci := range lreg.Calls() {
+			if calleeName(ci) != "github.com/kr/session.Set" {
+				continue
+			}
+			nSet++
+			okPost := lreg.Guarded(ci, postT)
+			if arm.key != "" {
+				okPost = arm.key == "POST" // the table runs this function for POST only
+			}
+			ok := cmpSeen && lreg.Guarded(ci, cmpOK) && okPost
+			c.Check("R19.3", fmt.Sprintf("Login/session.Set#%d", nSet), instrPos(ci), ok, "session.Set is reached only on the POST arm after ConstantTimeCompare(form password, h.password) == 1")
 		}
 	}
-	postT, _ := cmpEdges(login, func(b *ssa.BinOp) bool {
-		if b.Op != token.EQL {
-			return false
-		}
-		s, ok := constString(b.Y)
-		f, _ := loadedField(b.X)
-		return ok && s == "POST" && f != nil && f.Name() == "Method"
-	})
-	_, postT2 := cmpEdges(login, func(b *ssa.BinOp) bool { // `if r.Method != "POST" { 405; return }`
-		if b.Op != token.NEQ {
-			return false
-		}
-		s, ok := constString(b.Y)
-		f, _ := loadedField(b.X)
-		return ok && s == "POST" && f != nil && f.Name() == "Method"
-	})
-	postT = append(postT, postT2...)
-	nSet := 0
-	for _, ci := range lreg.Calls() {
-		if calleeName(ci) != "github.com/kr/session.Set" {
-			continue
-		}
-		nSet++
-		ok := cmpSeen && lreg.Guarded(ci, cmpOK) && lreg.Guarded(ci, postT)
-		c.Check("R19.3", fmt.Sprintf("Login/session.Set#%d", nSet), instrPos(ci), ok, "session.Set is reached only on the POST arm after ConstantTimeCompare(form password, h.password) == 1")
-	}
+	lreg = mainReg
 	if nSet == 0 {
 		c.Violation("R19.3", "Login/session.Set", login.Pos(), "Login never issues a session")
 	}
 	// session.Set anywhere else?
 	var otherSet []string
 	for _, fn := range w.RepoFuncs() {
-		if lreg.Has(fn) {
+		inArm := false
+		for _, arm := range arms {
+			if arm.reg.Has(fn) {
+				inArm = true
+			}
+		}
+		if inArm {
 			continue
 		}
 		for _, ci := range callsIn(fn) {
@@ -592,7 +647,13 @@ func propC19(c *Ctx) {
 	// ---- R19.4 ----------------------------------------------------------
 	c.Rule("R19.4", "loopback classification is derived from r.RemoteAddr only; a malformed address is not loopback", 2)
 	okAddr, okErr := false, false
-	for _, ci := range callsNamed(isLoopback, "net.ParseIP") {
+	// the classification may live in a function isLoopback hands the address to (loopbackAddr(r.RemoteAddr))
+	var parseIPs []ssa.CallInstruction
+	for _, f := range NewRegion(isLoopback).Funcs() {
+		parseIPs = append(parseIPs, callsNamed(f, "net.ParseIP")...)
+	}
+	for _, ci := range parseIPs {
+		classFn := ci.Parent()
 		arg := ci.Common().Args[0]
 		if e, ok := arg.(*ssa.Extract); ok && e.Index == 0 {
 			if sp, ok := e.Tuple.(*ssa.Call); ok && calleeName(sp) == "net.SplitHostPort" {
@@ -601,8 +662,8 @@ func propC19(c *Ctx) {
 					okAddr = true
 				}
 				// or the address is the function's string parameter and every caller passes its request's RemoteAddr
-				if p, isP := stripConv(sp.Call.Args[0]).(*ssa.Parameter); isP && p.Parent() == isLoopback {
-					callers := NewResolver(w).CallersOf(isLoopback)
+				if p, isP := stripConv(sp.Call.Args[0]).(*ssa.Parameter); isP && p.Parent() == classFn {
+					callers := NewResolver(w).CallersOf(classFn)
 					all := len(callers) > 0
 					for _, cs := range callers {
 						a := cs.Common().Args[paramIndex(p)]
@@ -649,18 +710,20 @@ func propC19(c *Ctx) {
 	}
 	// no header reads in isLoopback
 	hdr := false
-	for _, ci := range callsIn(isLoopback) {
-		if strings.Contains(calleeName(ci), "net/http.Header") {
-			hdr = true
-		}
-	}
-	allInstrs(isLoopback, func(in ssa.Instruction) {
-		if fa, ok := in.(*ssa.FieldAddr); ok {
-			if f, _ := fieldOf(fa); f.Name() == "Header" {
+	for _, lf := range NewRegion(isLoopback).Funcs() {
+		for _, ci := range callsIn(lf) {
+			if strings.Contains(calleeName(ci), "net/http.Header") {
 				hdr = true
 			}
 		}
-	})
+		allInstrs(lf, func(in ssa.Instruction) {
+			if fa, ok := in.(*ssa.FieldAddr); ok {
+				if f, _ := fieldOf(fa); f.Name() == "Header" {
+					hdr = true
+				}
+			}
+		})
+	}
 	c.Check("R19.4", "isLoopback/from-RemoteAddr", isLoopback.Pos(), okAddr && !hdr, "the classified address is the host part of r.RemoteAddr; no request header is consulted")
 	c.Check("R19.4", "isLoopback/malformed-is-false", isLoopback.Pos(), okErr, "a SplitHostPort error returns false")
 
@@ -759,5 +822,50 @@ func feasibleLeaves(fn *ssa.Function, v ssa.Value, cuts *Cuts) []ssa.Value {
 		}
 	}
 	walk(v, 0)
+	return out
+}
+
+// globalFuncMap: g is a package-level map from string constants to functions, written once by the
+// initialiser: key -> the functions stored under it (method expressions unwrapped).
+func globalFuncMap(w *World, g *ssa.Global) map[string][]*ssa.Function {
+	out := map[string][]*ssa.Function{}
+	if g == nil || g.Pkg == nil || !w.globalStoredOnlyInInit(g) {
+		return out
+	}
+	init := g.Pkg.Func("init")
+	var mk ssa.Value
+	allInstrs(init, func(in ssa.Instruction) {
+		if st, ok := in.(*ssa.Store); ok && st.Addr == ssa.Value(g) {
+			mk = st.Val
+		}
+	})
+	if mk == nil {
+		return out
+	}
+	allInstrs(init, func(in ssa.Instruction) {
+		mu, ok := in.(*ssa.MapUpdate)
+		if !ok || mu.Map != mk {
+			return
+		}
+		k, isK := constString(mu.Key)
+		if !isK {
+			return
+		}
+		var f *ssa.Function
+		switch x := stripConv(mu.Value).(type) {
+		case *ssa.Function:
+			f = x
+		case *ssa.MakeClosure:
+			f, _ = x.Fn.(*ssa.Function)
+		}
+		if f == nil {
+			return
+		}
+		for _, t := range unwrapBound(f) {
+			if t.Blocks != nil && isRepoFunc(t) {
+				out[k] = append(out[k], t)
+			}
+		}
+	})
 	return out
 }
